@@ -291,19 +291,39 @@ static void ph_poly(void *u) {
                 }
         }
 }
+// cell-derived "tip" polygons: a small quadrilateral over each corner of the cell at the anchor (see poly.h): cells that the polygon touches
+// only in a corner tip -- what a too-small bounding-box pre-filter loses
+static void ph_tips(void *u) {
+    uint64_t idx = 0;
+    for (int res = 0; res <= 15; res++)
+        for (int an = 0; an < poly_nanchor; an++) {
+            int k = poly_anchor_kind[an];
+            if (!mc_thorough && ((k == 0 && an % 3) || (k == 2 && an % 16))) continue;
+            for (int tip = 0; tip < 6; tip++)
+                for (int sc = 0; sc < 4; sc += (mc_thorough ? 1 : 2), idx++) {
+                    if (!mc_mine(idx)) continue;
+                    if (mc_expired()) return;
+                    MC_RUN(OP_POLY, I(POLY_NSHAPES + tip), I(an), I(sc), I(res));
+                }
+        }
+}
 int main(int argc, char **argv) {
     mc_init(argc, argv);
     g_astep = mc_thorough ? 1 : 12;
     g_rstep = mc_thorough ? 1 : 3;
     poly_build_anchors();
     snprintf(mc_bounds, sizeof mc_bounds, "11 shapes x 4 scales x %d anchors (%s) x resolutions %s x 4 modes x capacities {max, count-1, 0}; 16 invalid flag values", poly_nanchor,
-             mc_thorough ? "all" : "all special anchors + every 12th base-cell centre/corner", mc_thorough ? "0..15" : "0,3,..,15 and 1,4,..,13 (sparser anchors)");
+             mc_thorough ? "all" : "all special anchors + every 12th base-cell centre/corner", mc_thorough ? "0..15" : "0,3,..,15 and 1,4,..,13 / 2,5,..,14 (sparser anchors)");
+    snprintf(mc_bounds + strlen(mc_bounds), sizeof mc_bounds - strlen(mc_bounds), "; corner-tip polygons: 6 corners x %d sizes x %s anchors x all 16 resolutions", mc_thorough ? 4 : 2, mc_thorough ? "all" : "every 3rd base-cell centre + special");
     int r0 = 0;
     mc_phase("catalogue", ph_poly, &r0);
     if (!mc_thorough) {
         g_astep = 40;
         r0 = 1;
         mc_phase("catalogue (resolutions 1,4,..)", ph_poly, &r0);
+        r0 = 2;
+        mc_phase("catalogue (resolutions 2,5,..)", ph_poly, &r0);
     }
+    mc_phase("corner-tip polygons, all resolutions", ph_tips, NULL);
     return mc_finish();
 }
